@@ -305,3 +305,8 @@ def replay_case(case, ctx):
 def finalize(ctx):
     if ctx.counters.get("writes_logged", 0) == 0:
         ctx.inconc("no write was logged")
+
+
+RULE += (
+    ' 0-d sources, regions with integers on extra target axes, real ndarray targets of equal content, one source stored into several targets, npy stacks of 11-30 blocks and stacks rewritten in place.'
+)
